@@ -7,5 +7,6 @@ CONSTANTS
   DevPopOldest = FALSE
   DevTruncAll = FALSE
   DevSwallowBreak = FALSE
+  DevSplitLast = FALSE
 CHECK_DEADLOCK FALSE
 INVARIANT Replay
